@@ -6,13 +6,11 @@ package main
 //
 // Cases
 //   (project <doc> <projection>)            observable (<result> <source re-dumped after the call>) | ERR | PANIC
-//   (project-wt <doc> <projection>)         same observable; the tag tells the model to predict the source with
-//                                           project_src (known colliding-paths write-through), see genProjectCase
 //   (projectdb <op> (<doc>…) <projection>)  through the driver: observable (<results> <stored after> <results again>)
 //
 // Canonicalisation (identical tests in coq/Model/Project.v, run_project):
-//   UNMODELLED       the projection contains $elemMatch (matcher not modelled yet) or a $slice argument that is a
-//                    double outside int64 (Go's conversion is implementation-specific)
+//   UNMODELLED       an $elemMatch query falls under the matcher's syntactic UNMODELLED rule (fam_match.go,
+//                    unmodelledSyn: schema patterns, decimal multipleOf, huge $bits positions)
 //   ORDER-DEPENDENT  two operator paths, one running through the other: mongokit.Project ranges over a Go map
 //   more than one operator path: fields created by the merge step come in map order -> field names of the result sorted
 
@@ -58,42 +56,33 @@ func hasElemMatch(pr bson.D) bool {
 	return false
 }
 
-func badDouble(v interface{}) bool {
-	f, ok := v.(float64)
-	if !ok {
-		return false
+// elemMatchQueries: the arguments of the $elemMatch operators of a projection
+func elemMatchQueries(pr bson.D) []interface{} {
+	var qs []interface{}
+	for _, e := range pr {
+		if operatorEntry(e) {
+			for _, o := range e.Value.(bson.D) {
+				if o.Key == "$elemMatch" {
+					qs = append(qs, o.Value)
+				}
+			}
+		}
 	}
-	if math.IsNaN(f) || math.IsInf(f, 0) {
-		return true
-	}
-	t := math.Trunc(f)
-	return !(t >= -9223372036854775808.0 && t < 9223372036854775808.0)
+	return qs
 }
 
-func hasBadSliceArg(pr bson.D) bool {
-	for _, e := range pr {
-		if !operatorEntry(e) {
-			continue
-		}
-		for _, o := range e.Value.(bson.D) {
-			if o.Key != "$slice" {
-				continue
-			}
-			if a, ok := o.Value.(bson.A); ok {
-				for _, x := range a {
-					if badDouble(x) {
-						return true
-					}
-				}
-			} else if badDouble(o.Value) {
+// projUnmodelled: the matcher's syntactic UNMODELLED rule on every $elemMatch
+// query against every document of the case
+func projUnmodelled(docs []bson.D, pr bson.D) bool {
+	for _, q := range elemMatchQueries(pr) {
+		for _, d := range docs {
+			if unmodelledSyn(d, bson.D{{Key: "q", Value: q}}) {
 				return true
 			}
 		}
 	}
 	return false
 }
-
-func projUnmodelled(pr bson.D) bool { return hasElemMatch(pr) || hasBadSliceArg(pr) }
 
 func allDigits(s string) bool {
 	for i := 0; i < len(s); i++ {
@@ -165,26 +154,6 @@ func orderDependent(pr bson.D) bool {
 }
 
 func multiOperator(pr bson.D) bool { return len(operatorKeys(pr)) >= 2 }
-
-func spellingDiff(p, q []string) bool {
-	for i := 0; i < len(p) && i < len(q); i++ {
-		if p[i] != q[i] {
-			return normSeg(p[i]) == normSeg(q[i])
-		}
-	}
-	return false
-}
-
-func spellingClash(pr bson.D) bool {
-	for _, a := range pr {
-		for _, b := range pr {
-			if spellingDiff(strings.Split(a.Key, "."), strings.Split(b.Key, ".")) {
-				return true
-			}
-		}
-	}
-	return false
-}
 
 func safeCompareEq(v interface{}, n int64) (eq bool) {
 	defer func() {
@@ -387,27 +356,52 @@ func genSliceArg(r *rng) interface{} {
 	}
 }
 
-func genElemQuery(r *rng) bson.D {
-	switch r.intn(9) {
-	case 0:
-		return bson.D{{Key: pick(r, projKeys), Value: int32(r.intn(4))}}
-	case 1:
-		return bson.D{{Key: "$gt", Value: int32(r.intn(4))}}
-	case 2:
-		return bson.D{{Key: pick(r, projKeys), Value: bson.D{{Key: "$gte", Value: int32(r.intn(4))}}}}
-	case 3:
-		return bson.D{{Key: "$gt", Value: int32(r.intn(3))}, {Key: "$lt", Value: int32(3 + r.intn(5))}}
-	case 4:
-		return bson.D{{Key: pick(r, projKeys), Value: int32(r.intn(4))}, {Key: pick(r, projKeys), Value: bson.D{{Key: "$exists", Value: r.chance(1, 2)}}}}
-	case 5:
-		return bson.D{{Key: "$in", Value: bson.A{int32(r.intn(4)), int32(r.intn(9)), pick(r, poolStr)}}}
-	case 6:
-		return bson.D{{Key: pick(r, projKeys) + "." + pick(r, projKeys), Value: genScalar(r)}}
-	case 7:
-		return bson.D{{Key: pick(r, []string{"$and", "$or", "$foo", "$type"}), Value: bson.A{bson.D{{Key: "a", Value: int32(1)}}}}}
+// genElemQuery: a query for the elements of arr.  Mostly produced by the
+// matcher family's generator (fam_match.go) aimed at one element: field
+// conditions for a document element, an operator document on the element
+// itself otherwise; sometimes simple hand-made forms, the empty query or
+// operators that do not exist at expression level.
+func genElemQuery(r *rng, doc bson.D, arr bson.A) bson.D {
+	g := &fgen{r: r, mal: r.chance(1, 10)}
+	var q bson.D
+	switch {
+	case len(arr) > 0 && r.chance(3, 5):
+		item := arr[r.intn(len(arr))]
+		if d, ok := item.(bson.D); ok && len(d) > 0 {
+			depth := 0
+			if r.chance(1, 4) {
+				depth = 1
+			}
+			q = g.filter(d, depth)
+		} else {
+			virtual := bson.D{{Key: "item", Value: item}}
+			q = g.opDoc(virtual, "item", 1, 1+r.intn(2))
+		}
 	default:
-		return bson.D{}
+		switch r.intn(8) {
+		case 0:
+			q = bson.D{{Key: pick(r, projKeys), Value: int32(r.intn(4))}}
+		case 1:
+			q = bson.D{{Key: "$gt", Value: int32(r.intn(4))}}
+		case 2:
+			q = bson.D{{Key: pick(r, projKeys), Value: bson.D{{Key: "$gte", Value: int32(r.intn(4))}}}}
+		case 3:
+			q = bson.D{{Key: "$gt", Value: int32(r.intn(3))}, {Key: "$lt", Value: int32(3 + r.intn(5))}}
+		case 4:
+			q = bson.D{{Key: pick(r, projKeys), Value: int32(r.intn(4))}, {Key: pick(r, projKeys), Value: bson.D{{Key: "$exists", Value: r.chance(1, 2)}}}}
+		case 5:
+			q = bson.D{{Key: "$in", Value: bson.A{int32(r.intn(4)), int32(r.intn(9)), pick(r, poolStr)}}}
+		case 6:
+			q = bson.D{{Key: pick(r, []string{"$and", "$or", "$foo", "$type"}), Value: bson.A{bson.D{{Key: "a", Value: int32(1)}}}}}
+		default:
+			q = bson.D{}
+		}
 	}
+	// keep the query inside the matcher's modelled domain
+	if unmodelledSyn(doc, q) {
+		return bson.D{{Key: "$gte", Value: int32(r.intn(4))}}
+	}
+	return q
 }
 
 // elemQuery: the root-level query equivalent to the call made by
@@ -426,13 +420,18 @@ func elemQuery(q bson.D) bson.D {
 	return out
 }
 
-func genOperatorValue(r *rng, allowElem bool) bson.D {
+func genOperatorValue(r *rng, allowElem bool, doc bson.D, path string) bson.D {
 	switch {
-	case allowElem && r.chance(1, 3):
-		if r.chance(1, 8) {
+	case allowElem && r.chance(1, 2):
+		if r.chance(1, 12) {
 			return bson.D{{Key: "$elemMatch", Value: pick(r, []interface{}{int32(1), "x", nil, bson.A{}})}}
 		}
-		return bson.D{{Key: "$elemMatch", Value: genElemQuery(r)}}
+		arr, _ := bsonkit.Get(&doc, path).(bson.A)
+		em := bson.D{{Key: "$elemMatch", Value: genElemQuery(r, doc, arr)}}
+		if r.chance(1, 15) {
+			em = append(em, bson.E{Key: "$slice", Value: genSliceArg(r)})
+		}
+		return em
 	case r.chance(1, 25):
 		return bson.D{{Key: "$slice", Value: genSliceArg(r)}, {Key: "$slice", Value: genSliceArg(r)}}
 	case r.chance(1, 40):
@@ -515,7 +514,7 @@ func genProjection(r *rng, doc bson.D, allowElem bool) bson.D {
 			ap := pick(r, deep)
 			segs := strings.Split(ap, ".")
 			pre := strings.Join(segs[:1+r.intn(len(segs)-1)], ".")
-			pr = append(pr, bson.E{Key: pre, Value: pick(r, inclVals)}, bson.E{Key: ap, Value: genOperatorValue(r, false)})
+			pr = append(pr, bson.E{Key: pre, Value: pick(r, inclVals)}, bson.E{Key: ap, Value: genOperatorValue(r, allowElem, doc, ap)})
 			chosen = append(chosen, pre, ap)
 			if r.chance(1, 2) {
 				pr[0], pr[1] = pr[1], pr[0]
@@ -531,16 +530,19 @@ func genProjection(r *rng, doc bson.D, allowElem bool) bson.D {
 		case 1:
 			e = bson.E{Key: pathFor(false), Value: pick(r, exclVals)}
 		case 2:
-			e = bson.E{Key: pathFor(true), Value: genOperatorValue(r, allowElem && i == 0)}
+			k := pathFor(true)
+			e = bson.E{Key: k, Value: genOperatorValue(r, allowElem && i <= 1, doc, k)}
 		case 3:
 			if i == 0 || r.chance(1, 3) {
-				e = bson.E{Key: pathFor(true), Value: genOperatorValue(r, allowElem && i == 0)}
+				k := pathFor(true)
+				e = bson.E{Key: k, Value: genOperatorValue(r, allowElem && i <= 1, doc, k)}
 			} else {
 				e = bson.E{Key: pathFor(false), Value: pick(r, inclVals)}
 			}
 		case 4:
 			if i == 0 || r.chance(1, 3) {
-				e = bson.E{Key: pathFor(true), Value: genOperatorValue(r, false)}
+				k := pathFor(true)
+				e = bson.E{Key: k, Value: genOperatorValue(r, false, doc, k)}
 			} else {
 				e = bson.E{Key: pathFor(false), Value: pick(r, exclVals)}
 			}
@@ -557,7 +559,8 @@ func genProjection(r *rng, doc bson.D, allowElem bool) bson.D {
 			case 1:
 				e = bson.E{Key: pick(r, []string{"$slice", "$elemMatch", "$and"}), Value: int32(1)}
 			case 2:
-				e = bson.E{Key: pathFor(true), Value: genOperatorValue(r, false)}
+				k := pathFor(true)
+				e = bson.E{Key: k, Value: genOperatorValue(r, allowElem, doc, k)}
 			default:
 				e = bson.E{Key: pathFor(false), Value: genNumber(r)}
 			}
@@ -603,33 +606,16 @@ func genProjectCase(r *rng) string {
 		return genProjectDBCase(r)
 	}
 	doc := genProjDoc(r, false, 0)
-	pr := genProjection(r, doc, r.chance(1, 4))
-	// The tag says which model the observation is compared with.  `project`:
-	// the value model (source unchanged).  `project-wt`: project_src, used
-	// exactly when the real code changes the source AND the projection has
-	// colliding paths (the recorded defect); any other change of the source
-	// stays under `project` and is a mismatch.
-	tag := "project"
-	if collidingPaths(pr) && !projUnmodelled(pr) && !orderDependent(pr) {
-		func() {
-			defer func() { recover() }()
-			_, after, err := runProjectReal(doc, pr)
-			if err == nil && enc(after) != enc(doc) {
-				tag = "project-wt"
-			}
-		}()
-	}
-	return "(" + tag + " " + enc(doc) + " " + enc(pr) + ")"
+	pr := genProjection(r, doc, r.chance(3, 5))
+	return "(project " + enc(doc) + " " + enc(pr) + ")"
 }
 
-func canonPrecheck(pr bson.D) string {
+func canonPrecheck(docs []bson.D, pr bson.D) string {
 	switch {
-	case projUnmodelled(pr):
+	case projUnmodelled(docs, pr):
 		return "UNMODELLED"
 	case orderDependent(pr):
 		return "ORDER-DEPENDENT"
-	case collidingPaths(pr) && spellingClash(pr):
-		return "UNMODELLED"
 	}
 	return ""
 }
@@ -647,7 +633,7 @@ func runProjectCase(c *sx) string {
 	}
 	doc := *decDoc(c.list[1])
 	pr := *decDoc(c.list[2])
-	if s := canonPrecheck(pr); s != "" {
+	if s := canonPrecheck([]bson.D{doc}, pr); s != "" {
 		return s
 	}
 	res, after, err := runProjectReal(doc, pr)
@@ -696,18 +682,7 @@ func genProjectDBCase(r *rng) string {
 	for i := range docs {
 		docs[i] = genProjDoc(r, true, i+1)
 	}
-	var pr bson.D
-	for try := 0; ; try++ {
-		pr = genProjection(r, docs[r.intn(n)], false)
-		// the write-through cases are compared in the direct mode and
-		// reported by the oracle; here the store must stay as it is
-		if !collidingPaths(pr) || try > 20 {
-			break
-		}
-	}
-	if collidingPaths(pr) {
-		pr = bson.D{{Key: "a", Value: int32(1)}}
-	}
+	pr := genProjection(r, docs[r.intn(n)], r.chance(3, 5))
 	var sb strings.Builder
 	sb.WriteString("(projectdb " + pick(r, projDBOps) + " (")
 	for i, d := range docs {
@@ -815,7 +790,7 @@ func runProjectDBCase(c *sx) string {
 		docs = append(docs, *decDoc(n))
 	}
 	pr := *decDoc(c.list[3])
-	if s := canonPrecheck(pr); s != "" {
+	if s := canonPrecheck(docs, pr); s != "" {
 		return s
 	}
 	coll := projFreshCollection(docs)
@@ -859,6 +834,14 @@ func classifyProject(c *sx, obs string) ([]string, bool) {
 			nOp++
 			for _, o := range e.Value.(bson.D) {
 				labels = append(labels, "op:"+o.Key)
+				if o.Key == "$elemMatch" && tag == "project" {
+					src := *decDoc(c.list[1])
+					if arr, ok := bsonkit.Get(&src, e.Key).(bson.A); ok && len(arr) > 0 {
+						if _, isDoc := o.Value.(bson.D); isDoc {
+							labels = append(labels, "elemMatch:matcher-called")
+						}
+					}
+				}
 				if o.Key == "$slice" {
 					switch a := o.Value.(type) {
 					case bson.A:
@@ -927,6 +910,9 @@ func classifyProject(c *sx, obs string) ([]string, bool) {
 	if collidingPaths(pr) {
 		labels = append(labels, "paths:colliding")
 	}
+	if hasElemMatch(pr) {
+		labels = append(labels, "projection:has-elemMatch")
+	}
 	if overlappingKeys(pr) {
 		labels = append(labels, "paths:overlapping")
 	}
@@ -954,17 +940,34 @@ func overlappingKeys(pr bson.D) bool {
 	return false
 }
 
+// sliceIntOf: the integer a $slice argument stands for (int64 and double
+// arguments are clamped to +-MaxInt32, NaN is not a number)
 func sliceIntOf(v interface{}) (int64, bool) {
+	const max = int64(math.MaxInt32)
+	clamp := func(n int64) int64 {
+		if n > max {
+			return max
+		}
+		if n < -max {
+			return -max
+		}
+		return n
+	}
 	switch n := v.(type) {
 	case int32:
 		return int64(n), true
 	case int64:
-		return n, true
+		return clamp(n), true
 	case float64:
-		if badDouble(n) {
+		switch {
+		case math.IsNaN(n):
 			return 0, false
+		case n >= 4e9:
+			return max, true
+		case n <= -4e9:
+			return -max, true
 		}
-		return int64(n), true
+		return clamp(int64(n)), true
 	}
 	return 0, false
 }
@@ -1032,7 +1035,6 @@ func expectedWindow(a bson.A, arg interface{}) (bson.A, bool) {
 		}
 		return out
 	}
-	const big = int64(1) << 40
 	switch x := arg.(type) {
 	case bson.A:
 		if len(x) != 2 {
@@ -1040,7 +1042,7 @@ func expectedWindow(a bson.A, arg interface{}) (bson.A, bool) {
 		}
 		s, ok1 := sliceIntOf(x[0])
 		l, ok2 := sliceIntOf(x[1])
-		if !ok1 || !ok2 || l < 0 || l > big || s > big || s < -big {
+		if !ok1 || !ok2 || l < 0 {
 			return nil, false
 		}
 		if s < 0 {
@@ -1052,7 +1054,7 @@ func expectedWindow(a bson.A, arg interface{}) (bson.A, bool) {
 		return keep(s, l), true
 	default:
 		k, ok := sliceIntOf(arg)
-		if !ok || k > big || k < -big {
+		if !ok {
 			return nil, false
 		}
 		if k >= 0 {
@@ -1136,7 +1138,7 @@ func oracleC14Replay(f oracleFailure) []oracleFailure {
 	// order-dependent defects need several attempts (Go map order)
 	for try := 0; try < 64 && len(fails) == 0; try++ {
 		switch c.list[0].atom {
-		case "project", "project-wt":
+		case "project":
 			oracleC14Direct(*decDoc(c.list[1]), *decDoc(c.list[2]), st, fail, map[string]bool{})
 		case "projectdb":
 			var docs []bson.D
@@ -1176,7 +1178,8 @@ func oracleC14Direct(doc, pr bson.D, st *oracleStats, fail func(string, string, 
 		res, err = mongokit.Project(&d, &p)
 	}()
 	if panicked {
-		st.Dist["outcome:panic"]++ // C20's business; the source must still be intact
+		st.Dist["outcome:panic"]++
+		fail("C14:project-panics", "mongokit.Project panics (no argument of a projection may: C14_project_never_panics)", detail())
 	}
 	if !bytes.Equal(before, marshalD(d)) {
 		fail(mutationSignature(pr), "mongokit.Project changed its source document", detail("source_after", enc(d)))
